@@ -22,7 +22,8 @@ func init() {
 
 func run(c *vf.Ctx) {
 	c.Rule = "Layer A: breadth-first search over sequences of Mlrmap accessor calls (menu of ~230 parameterised ops over keys {a,b,c,new}, values {1,2} (value 1 only from the pre-filled starts: ~160 ops), positions -3..4) on the real mlrval.Mlrmap in 4 construction modes run in lock-step (lazily hashed, hashed, unhashed, arena-allocated lazily hashed); a state is the dump of key/value list + index contents + FieldCount + lazy flag of all modes, deduplicated; from the empty map to the fixpoint (closed menu) and to a fixed depth with the key-growing ops, and from pre-filled 11/12/13-field records (lazy-index threshold 12) to a fixed depth. 'states' = distinct canonical states per shard subtree summed (the closure configuration is exact), 'transitions' = op applications checked. " +
-		"Layer B: for every verb of the property, the cross product {option combinations} x {field lists} x {records} (records = every ordered selection of <= 4 distinct keys out of {a,b,c,a.b,a*,b c} with tracer values; streams for the stateful verbs) run through the in-process mlr (JSON in, JSON Lines out); a case is one (arguments, input record or stream) pair; all cases are distinct by construction; non-trivial = the verb changed the record/stream."
+		"Layer B: for every verb of the property, the cross product {option combinations} x {field lists} x {records} (records = every ordered selection of <= 4 distinct keys out of {a,b,c,a.b,a*,b c} with tracer values; streams for the stateful verbs) run through the in-process mlr (JSON in, JSON Lines out); a case is one (arguments, input record or stream) pair; all cases are distinct by construction; non-trivial = the verb changed the record/stream. " +
+		"Layer B, WIDTH dimension (verbs_w.go): for every verb, parametric families of invocations whose field list / matched set / generated set / group count has n (or 2n, 3n) members, for EVERY n = 1..N (N = 32 quick, 96 thorough: two groups of n reach 64 fields, past every size threshold of Go's sort package (12, 20, 50) and of Miller's lazily built record index (12)), on records of 3n, 3n+1, 3n+2 fields with interleaved groups in three orders, each in three record-construction modes (JSON input, DKVP input, DKVP input with --no-hash-records); oracle = reference model from the usage text or documented law; a case is one (family, mode, n) triple."
 	c.Assume("Mlrmap.PutReferenceAfter is only exercised with a key that is not yet in the map (the accessor performs no existence check; key uniqueness is the caller's job)")
 	c.Assume("Label is only exercised with pairwise distinct names (the label verb rejects duplicates before calling it)")
 	c.Assume("negative positional indices follow the doc comment of findEntryByPositionalIndex (-n..-1 alias 1..n); the user documentation only describes 1..NF")
@@ -88,5 +89,17 @@ func run(c *vf.Ctx) {
 	}
 	sort.Strings(laws)
 	c.Extra["laws_evaluated"] = laws
+	c.Extra["width_dimension"] = map[string]any{
+		"n_range":                     []int{1, wideN(c.Quick())},
+		"families_x_modes":            c.Counters["wide:families x modes"],
+		"cases_acting_on_<=12_fields": c.Counters["wide:cases, acts on <=12 fields"],
+		"cases_acting_on_>12_fields":  c.Counters["wide:cases, acts on >12 fields"],
+		"modes":                       []string{wmodes[0].name, wmodes[1].name, wmodes[2].name},
+		"record_widths":               "3n, 3n+1, 3n+2 (every width from 3 to 3N+2)",
+		"violation_key":               "<verb>-wide-<oracle>:<invocation template> [<mode>; acts on <=12 | >12 fields], replay = smallest failing n of the class",
+	}
+	if c.Counters["wide:cases, acts on <=12 fields"] == 0 || c.Counters["wide:cases, acts on >12 fields"] == 0 {
+		c.Exhaustive = false // vacuity guard: both sides of the threshold must have been exercised
+	}
 	verbAssumptions(c)
 }
